@@ -1,4 +1,5 @@
 use std::{
+  cell::Cell,
   collections::BTreeMap,
   fmt, iter,
   rc::Rc,
@@ -141,6 +142,9 @@ pub(crate) struct Reader {
   // The limit in the topic cache is shared with the other Readers of the topic,
   // so it can move without this Reader having moved it.
   announced_reliable_before: BTreeMap<GUID, SequenceNumber>,
+  // Set when this Reader has moved the shared limit of a Writer's stream: the
+  // other Readers of the topic have to tell their DataReaders, too.
+  moved_reliable_before_of: Cell<Option<GUID>>,
   writer_match_count_total: i32, // total count, never decreases
 
   requested_deadline_missed_count: i32,
@@ -208,6 +212,7 @@ impl Reader {
       last_fragment_garbage_collect: Timestamp::now(),
       matched_writers: BTreeMap::new(),
       announced_reliable_before: BTreeMap::new(),
+      moved_reliable_before_of: Cell::new(None),
       writer_match_count_total: 0,
       requested_deadline_missed_count: 0,
       offered_incompatible_qos_count: 0,
@@ -1229,16 +1234,25 @@ impl Reader {
   // hold back the Reliable DataReaders of the topic forever.
   fn mark_reliably_received_before(&self, writer_guid: GUID, sn: SequenceNumber) {
     if self.reliability != policy::Reliability::BestEffort {
-      self
+      let moved = self
         .acquire_the_topic_cache_guard()
         .mark_reliably_received_before(writer_guid, self.my_guid.entity_id, sn);
+      if moved {
+        self.moved_reliable_before_of.set(Some(writer_guid));
+      }
     }
+  }
+
+  // Has this Reader moved the shared limit since the last call? If so, of which
+  // Writer. The caller passes the news on to the other Readers of the topic.
+  pub(crate) fn take_moved_reliable_before(&self) -> Option<GUID> {
+    self.moved_reliable_before_of.take()
   }
 
   // Wake up the DataReader, if it can now read further than we have told it so
   // far. The limit is shared with the other Readers of the topic, and it may
   // well be one of them who has moved it.
-  fn notify_if_more_is_readable(&mut self, writer_guid: GUID) {
+  pub(crate) fn notify_if_more_is_readable(&mut self, writer_guid: GUID) {
     let readable_before = self
       .acquire_the_topic_cache_guard()
       .reliable_before(writer_guid);
@@ -1249,6 +1263,15 @@ impl Reader {
     if readable_before > *announced {
       *announced = readable_before;
       self.notify_cache_change();
+    }
+  }
+
+  // The shared limits can also move without any traffic to this Reader, e.g. when
+  // a Reader that held them back has left.
+  pub(crate) fn notify_if_more_is_readable_from_any_writer(&mut self) {
+    let writers: Vec<GUID> = self.matched_writers.keys().copied().collect();
+    for writer_guid in writers {
+      self.notify_if_more_is_readable(writer_guid);
     }
   }
 
